@@ -39,6 +39,7 @@ Run(q) ==
       target == IF pc[t] + q >= Steps[t] THEN Steps[t] ELSE pc[t] + q
       crosses == pc[t] < CacheAt(t) /\ CacheAt(t) <= target
   IN /\ Live(t) /\ q > 0 /\ ~ran          \* one quantum per turn: a turn is not split into several quanta
+     /\ (target < Steps[t] => preempts < P)  \* stopping before the end is a preemption still to be paid for
      /\ pc' = [pc EXCEPT ![t] = target]
      /\ cache' = IF crosses THEN "filled" ELSE cache
      /\ seen' = IF crosses THEN [seen EXCEPT ![t] = "value"] ELSE seen          \* every writer computes the same value
